@@ -4,7 +4,7 @@
    scores really move by sf times the sensitivity it was told: (eps sf)^2/8.  rho is cdp_rho(eps, delta) (C07). *)
 From Coq Require Import List ZArith Reals Lra Bool.
 Import ListNotations.
-Require Import PGM.Base.Num PGM.Model.Ledger PGM.Proofs.LedgerP.
+Require Import PGM.Base.Num PGM.Base.Alg PGM.Model.Domain PGM.Model.Dataset PGM.Model.Ledger PGM.Proofs.LedgerP PGM.Proofs.CertP PGM.Proofs.SensP.
 Open Scope R_scope.
 
 Theorem C05_mst_spends_rho rho k1 rm1 k2 : 0 < rho -> (0 < k1)%nat -> (0 < rm1)%nat -> (0 < k2)%nat ->
@@ -36,6 +36,37 @@ Theorem C05_aim_overspend_refuted rho : 0 < rho -> a_used (aim_init RNum rho 1 3
 Proof. exact (aim_overspend rho). Qed.
 Print Assumptions C05_aim_overspend_refuted.
 
-(* PARTIAL: that every released statistic really moves by at most the sensitivity the skeleton charges (one record changes one cell of
-   each marginal by 1; query matrices with unit column norms; L1 error scores move by <= 1 resp. 2) is not proved here; the check
-   charges every event of two neighbouring runs by the ACTUAL change of the operand / of the selection probabilities. *)
+(* SENSITIVITIES the skeleton charges.  A record (weight w) changes exactly one cell of the histogram, and of every projection of it,
+   by w - for every semiring of counts *)
+Theorem C05_record_changes_one_cell (S : SR) shape r w rs ws j :
+  hist S shape (r :: rs) (w :: ws) j = if Nat.eqb j (ravel shape r) then add S (hist S shape rs ws j) w else hist S shape rs ws j.
+Proof. exact (hist_add_record S shape r w rs ws j). Qed.
+Print Assumptions C05_record_changes_one_cell.
+Theorem C05_projection_commutes_with_adding_a_record (S : SR) (D : dataset S) r w cols : dproject (add_record S D r w) cols =
+  match project (ddom D) cols, axes (ddom D) cols, dproject D cols with
+  | Some _, Some ax, Some D' => Some (add_record S D' (select ax r) w)
+  | _, _, _ => None
+  end.
+Proof. exact (project_add_record S D r w cols). Qed.
+Print Assumptions C05_projection_commutes_with_adding_a_record.
+(* hence a marginal moves by exactly 1 in L1 and in L2 when a record is added or removed (Gauss _ 1 in the skeletons), and by 2 in L1 /
+   sqrt 2 in L2 when one record is replaced by another (ms = sqrt 2 in the bounded MWEM skeleton) *)
+Theorem C05_marginal_change_add_remove n h i : (i < n)%nat -> l1 n (bump h i 1) h = 1 /\ l2sq n (bump h i 1) h = 1.
+Proof. intros H. rewrite (l1_add_record n h i 1 H), (l2_add_record n h i 1 H), Rabs_R1. split; ring. Qed.
+Print Assumptions C05_marginal_change_add_remove.
+Theorem C05_marginal_change_replace n h i k : (i < n)%nat -> (k < n)%nat ->
+  l1 n (bump h i 1) (bump h k 1) <= 2 /\ l2sq n (bump h i 1) (bump h k 1) <= 2.
+Proof. intros Hi Hk. rewrite (l1_replace_record n h i k 1 Hi Hk), (l2_replace_record n h i k 1 Hi Hk), Rabs_R1. destruct (Nat.eqb i k); split; lra. Qed.
+Print Assumptions C05_marginal_change_replace.
+(* the L1 error scores of MST, AIM and MWEM move by at most the L1 change of the true marginal (1 resp. 2), whatever the model
+   marginal; scaled and shifted scores by |w| times that; unit-bounded linear queries likewise *)
+Theorem C05_l1_score_sensitivity n x x' m : Rabs (l1 n x' m - l1 n x m) <= l1 n x' x.
+Proof. exact (l1_score_sensitivity n x x' m). Qed.
+Print Assumptions C05_l1_score_sensitivity.
+Theorem C05_weighted_score_sensitivity n x x' m w b : Rabs (w * (l1 n x' m - b) - w * (l1 n x m - b)) <= Rabs w * l1 n x' x.
+Proof. exact (weighted_score_sensitivity n x x' m w b). Qed.
+Print Assumptions C05_weighted_score_sensitivity.
+
+(* PARTIAL: that the Python code releases exactly these statistics (marginals of the private data, L1 scores against a model fitted to
+   earlier releases) is observed: the check charges every event of two neighbouring runs by the ACTUAL change of the operand / of the
+   selection probabilities.  The zCDP composition and conversion theorems are cited (charging rule), not proved. *)
